@@ -58,6 +58,9 @@ type item struct {
 	name, text string
 	mod        *gen.Module // structure the text was rendered from
 	variant    bool        // another revision of a module of the set
+	// pre: an operation that must come right before this load ("process", "walk", "read"): the
+	// text is meant to arrive after the set has been processed or read once
+	pre string
 }
 
 // poison is a nested scope with a typedef that cannot be resolved: the builder registers the
@@ -281,6 +284,11 @@ func genHistory(r *rand.Rand, maxLen int) History {
 		items = items[:maxLen-2]
 		origin += "+truncated"
 	}
+	return buildOps(r, items, maxLen, origin)
+}
+
+// buildOps interleaves the loads of items (in order) with process, read, walk and bad loads.
+func buildOps(r *rand.Rand, items []item, maxLen int, origin string) History {
 	h := History{Origin: origin}
 	if r.Intn(12) == 0 {
 		h.IgnoreCircular = true
@@ -327,7 +335,32 @@ func genHistory(r *rand.Rand, maxLen int) History {
 		return true
 	}
 	for i := 0; i < len(items); {
-		slack := maxLen - len(h.Ops) - (len(items) - i) - 1
+		pres := 0
+		for _, it := range items[i:] {
+			if it.pre != "" {
+				pres++
+			}
+		}
+		slack := maxLen - len(h.Ops) - (len(items) - i) - pres - 1
+		if pre := items[i].pre; pre != "" {
+			// the forced operation, unless the history has just done it
+			items[i].pre = ""
+			if n := len(h.Ops); n == 0 || h.Ops[n-1].Op != pre {
+				switch {
+				case pre == "read" && len(loaded) > 0:
+					l := loaded[len(loaded)-1]
+					h.Ops = append(h.Ops, Op{Op: "read", Key: l.mod.Name, Path: readPath(r, l.mod)})
+				case pre == "read":
+					h.Ops = append(h.Ops, Op{Op: "walk"})
+				default:
+					h.Ops = append(h.Ops, Op{Op: pre})
+				}
+				if pre == "process" {
+					processed = true
+				}
+			}
+			continue
+		}
 		p := 0.45
 		if !processed && i > 0 {
 			p = 0.6
@@ -355,4 +388,196 @@ func genHistory(r *rand.Rand, maxLen int) History {
 		h.Ops = append(h.Ops, Op{Op: "process"})
 	}
 	return h
+}
+
+func nd(kw, arg string, kids ...*gen.Node) *gen.Node { return &gen.Node{Kw: kw, Arg: arg, Kids: kids} }
+
+// libTypedefs are the typedefs of the type library `tl` in its first (variant 0) or a later
+// written revision (variant > 0: other base kind, other range, other enum / bit set, other
+// fraction digits, other union members).
+func libTypedefs(r *rand.Rand, variant int) []*gen.Node {
+	if variant == 0 {
+		return []*gen.Node{
+			nd("typedef", "id", nd("type", "int8", nd("range", "1..10"))),
+			nd("typedef", "en", nd("type", "enumeration", nd("enum", "a"), nd("enum", "b"))),
+			nd("typedef", "bt", nd("type", "bits", nd("bit", "x"), nd("bit", "y"))),
+			nd("typedef", "dec", nd("type", "decimal64", nd("fraction-digits", "2"), nd("range", "1..10"))),
+			nd("typedef", "u1", nd("type", "union", nd("type", "id"), nd("type", "boolean"))),
+		}
+	}
+	id := []*gen.Node{
+		nd("type", "string", nd("length", "1..4")),
+		nd("type", "int8", nd("range", "2..5")),
+		nd("type", "uint32"),
+		nd("type", "en"),
+	}[r.Intn(4)]
+	en := nd("type", "enumeration", nd("enum", "a"), nd("enum", "c"), nd("enum", "d", nd("value", "7")))
+	if r.Intn(3) == 0 {
+		en = nd("type", "enumeration", nd("enum", "a"), nd("enum", "b")) // unchanged
+	}
+	bt := nd("type", "bits", nd("bit", "x"), nd("bit", "z", nd("position", "5")))
+	dec := []*gen.Node{
+		nd("type", "decimal64", nd("fraction-digits", "3"), nd("range", "1..10")),
+		nd("type", "decimal64", nd("fraction-digits", "2"), nd("range", "2..4")),
+		nd("type", "int8"),
+	}[r.Intn(3)]
+	u1 := []*gen.Node{
+		nd("type", "union", nd("type", "id"), nd("type", "en")),
+		nd("type", "union", nd("type", "boolean"), nd("type", "id"), nd("type", "bt")),
+		nd("type", "string"),
+	}[r.Intn(3)]
+	return []*gen.Node{nd("typedef", "id", id), nd("typedef", "en", en), nd("typedef", "bt", bt), nd("typedef", "dec", dec), nd("typedef", "u1", u1)}
+}
+
+func libModule(r *rand.Rand, rev string, variant int) *gen.Module {
+	m := &gen.Module{Name: "tl", Prefix: "tl", Namespace: "urn:tl", Revisions: []string{rev}, ImportPrefix: map[*gen.Module]string{},
+		Body: nd("module", "tl")}
+	m.Body.Kids = libTypedefs(r, variant)
+	return m
+}
+
+// tag is an extension statement of module ex on a type statement.
+func tag(v string) *gen.Node { return nd("ex:tag", v) }
+
+// typeFeatureNodes are leaves and typedefs whose type statement names a BUILT-IN type and yet
+// depends on the module set: unions (also nested, also inside typedefs) with typedef members of
+// the imported library, built-in members with restrictions beside them, and built-in types that
+// carry an extension statement of an imported module.
+func typeFeatureNodes(r *rand.Rand, useLib, useExt bool) []*gen.Node {
+	var out []*gen.Node
+	leaf := func(name string, t *gen.Node) { out = append(out, nd("leaf", name, t)) }
+	some := func() bool { return r.Intn(3) != 0 }
+	if useLib {
+		leaf("tfdirect", nd("type", "tl:id"))
+		leaf("tfeither", nd("type", "union", nd("type", "tl:id"), nd("type", "boolean")))
+		if some() {
+			leaf("tfnested", nd("type", "union",
+				nd("type", "union", nd("type", "tl:en"), nd("type", "tl:bt")),
+				nd("type", "tl:dec")))
+		}
+		if some() {
+			out = append(out, nd("typedef", "tfut", nd("type", "union", nd("type", "tl:id"), nd("type", "tl:u1"))))
+			leaf("tfviaut", nd("type", "tfut"))
+			if some() {
+				leaf("tfutu", nd("type", "union", nd("type", "tfut"), nd("type", "tl:en")))
+			}
+		}
+		if some() {
+			// built-in members with restrictions of their own beside members that change
+			leaf("tfmixed", nd("type", "union",
+				nd("type", "tl:dec"),
+				nd("type", "decimal64", nd("fraction-digits", "2"), nd("range", "1..5")),
+				nd("type", "enumeration", nd("enum", "q"), nd("enum", "r")),
+				nd("type", "bits", nd("bit", "b0"), nd("bit", "b1")),
+				nd("type", "leafref", nd("path", "../tfdirect")),
+				nd("type", "tl:en")))
+		}
+		if some() {
+			out = append(out, nd("leaf-list", "tfll", nd("type", "union", nd("type", "tl:bt"), nd("type", "tl:id"))))
+		}
+		if some() {
+			out = append(out, nd("container", "tfc",
+				nd("typedef", "tfin", nd("type", "union", nd("type", "tl:dec"), nd("type", "tl:id"))),
+				nd("leaf", "tfinl", nd("type", "tfin"))))
+		}
+	}
+	if useExt {
+		out = append(out, nd("typedef", "tfname", nd("type", "string", nd("length", "1..8"), tag("n"))))
+		leaf("tfn", nd("type", "tfname"))
+		if some() {
+			leaf("tfint", nd("type", "int8", nd("range", "1..5"), tag("i")))
+		}
+		if some() {
+			leaf("tfenum", nd("type", "enumeration", nd("enum", "a"), nd("enum", "b"), tag("e")))
+		}
+		if some() {
+			leaf("tfdec", nd("type", "decimal64", nd("fraction-digits", "2"), tag("d")))
+		}
+		if some() {
+			leaf("tfbits", nd("type", "bits", nd("bit", "b0"), tag("b")))
+		}
+		if some() {
+			leaf("tflref", nd("type", "leafref", nd("path", "../tfn"), tag("l")))
+		}
+		if some() {
+			leaf("tfbool", nd("type", "boolean", tag("o")))
+		}
+		if useLib && some() {
+			leaf("tfunion", nd("type", "union", nd("type", "tl:id"), nd("type", "string", tag("m")), tag("u")))
+		}
+	}
+	return out
+}
+
+// genTypeHistory builds a history around types that name a built-in and still depend on the
+// module set: a generated module gets the nodes of typeFeatureNodes; the type library arrives
+// early in one revision and late - after a Process - in another one that redefines its typedefs;
+// the module that defines the extension arrives only after a first Process, walk or read.
+func genTypeHistory(r *rand.Rand, maxLen int) History {
+	cfg := gen.Default()
+	cfg.MaxModules = 1
+	cfg.Submodules = false
+	if maxLen >= 12 {
+		cfg.MaxModules = 1 + r.Intn(2)
+		cfg.Submodules = r.Intn(2) == 0
+	}
+	cfg.BadRate = 0.05
+	set := gen.Generate(r, cfg)
+	useLib := r.Intn(4) != 0
+	useExt := !useLib || r.Intn(2) == 0
+	if maxLen < 12 && useLib && useExt && r.Intn(2) == 0 {
+		useExt = false // leave room for bad loads and reads in a short history
+	}
+	user := set.Mods[r.Intn(len(set.Mods))]
+	libA := libModule(r, "2020-01-01", 0)
+	ext := &gen.Module{Name: "ex", Prefix: "ex", Namespace: "urn:ex", ImportPrefix: map[*gen.Module]string{},
+		Body: nd("module", "ex", nd("extension", "tag", nd("argument", "value")))}
+	if useLib {
+		user.Imports = append(user.Imports, libA)
+		user.ImportPrefix[libA] = "tl"
+	}
+	if useExt {
+		user.Imports = append(user.Imports, ext)
+		user.ImportPrefix[ext] = "ex"
+	}
+	user.Body.Kids = append(user.Body.Kids, typeFeatureNodes(r, useLib, useExt)...)
+	var items []item
+	for _, m := range set.Mods {
+		items = append(items, item{name: m.FileName(), text: m.Text(), mod: m})
+	}
+	origin := "types"
+	if r.Intn(3) == 0 {
+		r.Shuffle(len(items), func(i, j int) { items[i], items[j] = items[j], items[i] })
+	}
+	if useLib {
+		origin += "+library-revision"
+		a := item{name: "tl.yang", text: libA.Text(), mod: libA}
+		pos := r.Intn(len(items) + 1)
+		items = append(items[:pos:pos], append([]item{a}, items[pos:]...)...)
+	}
+	var late []item
+	if useLib {
+		rev := "2021-06-01"
+		if r.Intn(5) == 0 {
+			rev = "2019-03-03" // an older revision arriving late: the name keeps denoting the first
+		}
+		libB := libModule(r, rev, 1)
+		late = append(late, item{name: "tl@" + rev + ".yang", text: libB.Text(), mod: libB, variant: true, pre: "process"})
+	}
+	if useExt {
+		origin += "+late-extension-module"
+		pre := []string{"process", "process", "walk", "read"}[r.Intn(4)]
+		e := item{name: "ex.yang", text: ext.Text(), mod: ext, pre: pre}
+		if r.Intn(2) == 0 {
+			late = append(late, e)
+		} else {
+			late = append([]item{e}, late...)
+		}
+	}
+	items = append(items, late...)
+	for len(items) > maxLen-2 {
+		items = items[1:]
+		origin += "+truncated"
+	}
+	return buildOps(r, items, maxLen, origin)
 }
